@@ -226,6 +226,8 @@ func verifRErrClass(err error) string {
 		return "merge"
 	case errors.Is(err, datas.ErrOptimisticLockFailed):
 		return "lock"
+	case errors.Is(err, datas.ErrAlreadyCommitted):
+		return "already"
 	case errors.Is(err, datas.ErrDirtyWorkspace):
 		return "dirty"
 	case strings.Contains(err.Error(), "already exists and cannot be altered"):
@@ -234,11 +236,19 @@ func verifRErrClass(err error) string {
 	return "other"
 }
 
-func (h *verifRHarness) commitMeta(sym string) *datas.CommitMeta {
+// commitMeta: the description is the tag and both dates are pinned to a function of the tag, so
+// equal tags give byte-identical metadata.
+func (h *verifRHarness) commitMeta(tag string) *datas.CommitMeta {
 	var n int
-	fmt.Sscanf(sym, "c%d", &n)
-	id := datas.CommitIdent{Name: "verif", Email: "verif@example.com", Date: datas.CommitDateAt(time.Unix(1700000000+int64(n), 0).UTC())}
-	return &datas.CommitMeta{Author: id, Committer: id, Description: sym}
+	if len(tag) > 1 {
+		fmt.Sscanf(tag[1:], "%d", &n)
+	}
+	base := int64(1700000000)
+	if strings.HasPrefix(tag, "p") {
+		base = 1600000000
+	}
+	id := datas.CommitIdent{Name: "verif", Email: "verif@example.com", Date: datas.CommitDateAt(time.Unix(base+int64(n), 0).UTC())}
+	return &datas.CommitMeta{Author: id, Committer: id, Description: tag}
 }
 
 func (h *verifRHarness) wsSpec(op *verifROp) datas.WorkingSetSpec {
@@ -321,7 +331,7 @@ func (h *verifRHarness) exec(op *verifROp, exp *verifROutcome, top bool) {
 	var err error
 	switch op.Kind {
 	case verifRCommit, verifRCommitWS:
-		opts := datas.CommitOptions{Meta: h.commitMeta(op.NewSym), AmendedCommit: h.hashOf(op.Amend), Force: op.Force}
+		opts := datas.CommitOptions{Meta: h.commitMeta(op.MetaTag), AmendedCommit: h.hashOf(op.Amend), Force: op.Force}
 		if op.Parents != nil {
 			opts.Parents = []hash.Hash{}
 			for _, p := range op.Parents {
@@ -521,8 +531,8 @@ func (h *verifRHarness) bind(c *verifRClient, id, sym string, addr hash.Hash) {
 			h.fail("commit %s at %s has root value %s (%v), want %s", sym, id, rh, err, info.value)
 		}
 		meta, err := datas.GetCommitMeta(ctx, v)
-		if err != nil || meta.Description != sym {
-			h.fail("dataset %s: expected commit %s, found a commit described as %q (%v)", id, sym, meta.Description, err)
+		if err != nil || meta.Description != info.meta {
+			h.fail("dataset %s: expected commit %s (metadata %s), found a commit described as %q (%v)", id, sym, info.meta, meta.Description, err)
 		}
 	case verifRIsWSSym(sym):
 		sm, ok := v.(types.SerialMessage)
